@@ -69,7 +69,36 @@ _EXC = {"ValueError": ValueError, "TypeError": TypeError, "KeyError": KeyError,
         "AttributeError": AttributeError, "Exception": Exception}
 _STR_METHODS = {"isdigit", "strip", "lstrip", "rstrip", "lower", "upper", "startswith", "endswith",
                 "replace", "join", "split", "ljust", "rjust", "format", "capitalize", "isalpha",
-                "isidentifier", "count", "find", "title"}
+                "isidentifier", "count", "find", "title", "casefold", "swapcase", "zfill", "partition", "rpartition",
+                "rsplit", "center", "expandtabs", "removeprefix", "removesuffix", "isupper", "islower", "isspace",
+                "isalnum", "isnumeric", "isdecimal", "splitlines", "rfind", "index", "encode", "translate"}
+
+
+def _pure_stdlib():
+    """pure functions of the standard library that evaluated code may call on data"""
+    import collections
+    import functools
+    import itertools
+    import math
+    import operator
+    import re as _re
+    t = {}
+    for n in ("groupby", "chain", "product", "islice", "zip_longest", "accumulate", "permutations", "combinations", "takewhile", "dropwhile", "starmap", "tee", "pairwise"):
+        if hasattr(itertools, n):
+            t[("itertools", n)] = getattr(itertools, n)
+    t[("functools", "reduce")] = functools.reduce
+    for n in dir(operator):
+        if not n.startswith("_"):
+            t[("operator", n)] = getattr(operator, n)
+    for n in ("floor", "ceil", "trunc", "sqrt", "fabs", "isfinite", "isnan", "isinf", "copysign", "gcd", "log2", "log10", "pow", "fmod"):
+        t[("math", n)] = getattr(math, n)
+    t[("collections", "OrderedDict")] = collections.OrderedDict
+    for n in ("sub", "subn", "match", "fullmatch", "search", "findall", "split", "escape"):
+        t[("re", n)] = getattr(_re, n)
+    return t
+
+
+_PURE_STDLIB = _pure_stdlib()
 _PURE_BUILTINS = {"len": len, "abs": abs, "max": max, "min": min, "round": round, "sorted": sorted,
                   "any": any, "all": all, "sum": sum, "range": range, "enumerate": enumerate, "zip": zip,
                   "list": list, "tuple": tuple, "set": set, "frozenset": frozenset, "dict": dict,
@@ -399,6 +428,9 @@ class Interp:
                 return _PURE_BUILTINS[n.id]
             if n.id in self.mod.classes:
                 return self._synth_class(n.id)
+            imp = getattr(self.mod, "imports", {}).get(n.id)
+            if imp is not None and imp[1] is not None and (imp[0], imp[1]) in _PURE_STDLIB:
+                return _PURE_STDLIB[(imp[0], imp[1])]
             if n.id == "ast":
                 return ast  # the stdlib module: only its node classes are consulted (isinstance tests)
             if n.id in ("True", "False", "None"):
@@ -531,38 +563,58 @@ class Interp:
             return _lam
         raise Unsupported(f"expression {type(n).__name__}")
 
+    def _stdlib(self, fn, args, kwargs, node):
+        try:
+            r = fn(*args, **kwargs)
+        except (ValueError, TypeError, ZeroDivisionError, OverflowError, KeyError, IndexError) as e:
+            raise Raised(type(e).__name__, "", node)
+        import types
+        if isinstance(r, (types.GeneratorType,)) or type(r).__module__ == "itertools":
+            out = []
+            for x in r:
+                self._tick()
+                if type(x) is tuple and len(x) == 2 and type(x[1]).__module__ == "itertools":
+                    x = (x[0], list(x[1]))   # groupby: materialise the group
+                out.append(x)
+            return out
+        return r
+
     @staticmethod
     def _hashable(k):
         if isinstance(k, list):
             return tuple(k)
         return k
 
-    def _comp(self, n, env):
-        results = []
-
+    def _comp_iter(self, n, env):
+        """lazy element stream of a comprehension: any()/all()/next() over a generator expression stop early exactly
+        as Python does, so side effects of the skipped elements do not happen"""
         def rec(gi, e):
             if gi == len(n.generators):
                 if isinstance(n, ast.DictComp):
-                    results.append((self.expr(n.key, e), self.expr(n.value, e)))
+                    yield (self.expr(n.key, e), self.expr(n.value, e))
                 else:
-                    results.append(self.expr(n.elt, e))
+                    yield self.expr(n.elt, e)
                 return
             g = n.generators[gi]
-            for item in list(self.expr(g.iter, e)):
+            for item in self.expr(g.iter, e):
                 self._tick()
                 e2 = Env(e)
                 self._assign(g.target, item, e2)
                 if all(self._truth(self.expr(c, e2)) for c in g.ifs):
-                    rec(gi + 1, e2)
+                    yield from rec(gi + 1, e2)
 
-        rec(0, env)
+        return rec(0, env)
+
+    def _comp(self, n, env):
+        it = self._comp_iter(n, env)
+        if isinstance(n, ast.GeneratorExp):
+            return it
+        results = list(it)
         if isinstance(n, ast.ListComp):
             return results
         if isinstance(n, ast.SetComp):
             return set(results)
-        if isinstance(n, ast.DictComp):
-            return dict(results)
-        return results  # generator -> materialised list
+        return dict(results)
 
     def _callexpr(self, n, env):
         f = n.func
@@ -582,6 +634,12 @@ class Interp:
             dn = lit_name(f)
             if dn in self.opaque:
                 return self.opaque[dn](*args, **kwargs)
+            if dn and "." in dn:
+                root, attr = dn.split(".", 1)
+                imp = getattr(self.mod, "imports", {}).get(root)
+                modname = imp[0] if imp is not None and imp[1] is None else None
+                if modname and (modname, attr) in _PURE_STDLIB and root not in env:
+                    return self._stdlib(_PURE_STDLIB[(modname, attr)], args, kwargs, n)
             base = self.expr(f.value, env)
             m = f.attr
             if isinstance(base, str) and m in _STR_METHODS:
@@ -644,6 +702,9 @@ class Interp:
                 return self._call(target.fn, args, kwargs, target.env)
             if callable(target) and getattr(target, "_dl_lambda", False):
                 return target(*args)
+            imp = getattr(self.mod, "imports", {}).get(name)
+            if name not in env and imp is not None and imp[1] is not None and (imp[0], imp[1]) in _PURE_STDLIB:
+                return self._stdlib(_PURE_STDLIB[(imp[0], imp[1])], args, kwargs, n)
             if isinstance(target, (ast.FunctionDef,)):
                 return self._call(target, args, kwargs)
             if name in _TYPES and name not in env:
